@@ -68,9 +68,9 @@ Definition select (n : netlist) (r : rt_inst) (h : hdr) : res (Z * hdr) :=
   match h with
   | HId d =>
       match r_map r with
-      | Some (_, (_, (_, rules))) =>
+      | Some (_, (_, (_, (iw, rules)))) =>
           match filter (fun ru => matchesb ru d) rules with
-          | [ru] => Ok (dest ru, h)
+          | [ru] => Ok (trunc iw (dest ru), h)   (* the port index lives in a field of iw bits *)
           | [] => Err "no rule matches"
           | _ => Err "several rules match"
           end
